@@ -216,13 +216,21 @@ def observe(np, bank, i, w, order=0):
         warnings.simplefilter("ignore")
         for q in ORDERS[order] + ORDERS[order][:1]:
             if q == "full":
-                r = bank.get_frequency_response(i, w)
+                raw = bank.get_frequency_response(i, w)
+                r = raw.copy()
             elif q == "half":
-                r = bank.get_frequency_response(i, w, half=True)
+                raw = bank.get_frequency_response(i, w, half=True)
+                r = raw.copy()
             else:
-                b, t = bank.get_truncated_response(i, w)
+                b, raw = bank.get_truncated_response(i, w)
+                t = raw.copy()
                 r = np.concatenate([[float(b)], np.asarray(t).view(np.float64) if np.iscomplexobj(t) else np.asarray(t, dtype=np.float64)])
                 got["_bt"] = (int(b), t)
+            # the returned array belongs to the caller: scribbling on it must not change any later answer
+            try:
+                raw[...] = 7.25
+            except (ValueError, TypeError):
+                pass  # a read-only result is fine too
             if q in got and not (r.shape == got[q].shape and np.array_equal(r, got[q])):
                 raise RuntimeError("asking for the %s response twice gives different answers (shapes %s, %s)" % (q, got[q].shape, r.shape))
             got[q] = r
